@@ -54,6 +54,7 @@ func (e *FnEnc) reset() {
 	e.st = e.st0.clone()
 	e.deferred = nil
 	e.modAllowed, e.modAllowedDone = nil, false
+	e.localObjs = nil
 	e.symCache = nil
 	e.loopPre = map[*loopInfo]*State{}
 	if e.assumptions == nil {
@@ -670,6 +671,12 @@ func (e *FnEnc) encodeInstr(in ssa.Instruction) {
 		pt := x.Type().Underlying().(*types.Pointer)
 		r := e.newRef("alloc_" + x.Name())
 		e.vals[x] = Val{T: x.Type(), L: []string{r}}
+		if _, isStruct := pt.Elem().Underlying().(*types.Struct); isStruct && !x.Heap && e.allocStaysLocal(x) {
+			if e.localObjs == nil {
+				e.localObjs = map[string]string{}
+			}
+			e.localObjs[r] = x.Name()
+		}
 		e.zeroInit(r, pt.Elem())
 	case *ssa.BinOp:
 		e.encBinOp(x)
@@ -794,7 +801,7 @@ func (e *FnEnc) zeroInit(r string, t types.Type) {
 				continue
 			}
 			for _, l := range e.sorter.leaves(f.Type()) {
-				a := e.heapArr(objArrName(typeName(t), "."+f.Name()+l.suffix), e.arrSort1(l.sort))
+				a := e.heapArr(objArrName(e.objT(r, t), "."+f.Name()+l.suffix), e.arrSort1(l.sort))
 				z := e.sorter.zeroLeaf(l)
 				if isStringType(f.Type()) {
 					z = e.strLit("")
